@@ -114,22 +114,26 @@ def c05_family(img, rng, quick, for_model=True):
     return fam
 
 
-BUDGET = {'quick': dict(pair=6_000_000, total=500_000_000), 'thorough': dict(pair=80_000_000, total=8_000_000_000)}
+BUDGET = {'quick': dict(pair=6_000_000, total=600_000_000), 'thorough': dict(pair=80_000_000, total=8_000_000_000)}
 
 
 def correspondence(ctx):
     rng = ctx.rng
     budget = BUDGET['quick' if ctx.quick else 'thorough']
     pairs, spent = [], 0
-    for img in c05_images(ctx, rng):
+    imgs = c05_images(ctx, rng)
+    # cheap streams first, so that the total model budget is never used up before they are reached
+    imgs.sort(key=lambda i: (i.tag.startswith('big/'), len(i.data) > 64 * G.K))
+    for img in imgs:
         n = len(img.data)
         mo = img.params.get('meta_off') if isinstance(img.params.get('meta_off'), int) else None
         fam, skipped = G.select(img.fmt, n, c05_family(img, rng, ctx.quick), budget['pair'], mo)
         if skipped:
             ctx.count('chunkings-skipped-for-model-cost', skipped)
-        if ctx.quick and len(fam) > 9:
-            head = [f for f in fam if f[0] in ('one', 'giant+dribble', 'dribble+giant', 'fixed65536')]
-            fam = head + rng.sample([f for f in fam if f not in head], 9 - len(head))
+        cap = (5 if img.tag.startswith('big/') else 7 if n > 64 * G.K else 10) * (1 if ctx.quick else 3)
+        if len(fam) > cap:
+            head = [f for f in fam if f[0] in ('one', 'giant+dribble', 'dribble+giant', 'fixed65536')][:cap]
+            fam = head + rng.sample([f for f in fam if f not in head], cap - len(head))
         for tag, sizes in fam:
             c = G.model_cost(img.fmt, n, sizes, mo)
             if spent + c > budget['total']:
